@@ -164,6 +164,96 @@ def _returns_in_tail_position(block: list[ast.stmt]) -> bool:
     return True
 
 
+def _without_continue(body: list) -> list | None:
+    """loop body with `if c: ..; continue` at its top level rewritten as `if c: .. else: <rest>`; None when
+    there is nothing to rewrite or a continue sits anywhere else"""
+    def has_continue(stmts) -> bool:
+        for x in stmts:
+            if isinstance(x, ast.Continue):
+                return True
+            if isinstance(x, (ast.For, ast.While, ast.FunctionDef, ast.AsyncFunctionDef, ast.ClassDef)):
+                continue
+            for f_ in ('body', 'orelse', 'finalbody'):
+                if has_continue(getattr(x, f_, []) or []):
+                    return True
+            for h in getattr(x, 'handlers', []) or []:
+                if has_continue(h.body):
+                    return True
+        return False
+    if not has_continue(body):
+        return None
+    out = []
+    for i, x in enumerate(body):
+        if isinstance(x, ast.If) and x.body and isinstance(x.body[-1], ast.Continue) and not has_continue(x.body[:-1]) \
+                and not has_continue(x.orelse):
+            rest = _without_continue(body[i + 1:])
+            if rest is None:
+                rest = body[i + 1:]
+            if has_continue(rest):
+                return None
+            new = ast.copy_location(ast.If(test=x.test, body=x.body[:-1] or [ast.copy_location(ast.Pass(), x)],
+                                           orelse=list(x.orelse) + rest), x)
+            return out + [new]
+        if has_continue([x]):
+            return None
+        out.append(x)
+    return None
+
+
+def _simplify_test(e: ast.AST) -> ast.AST:
+    """a test with the comparisons of two literals decided: `'size' == 'flags' and x` is False, `'a' == 'a'
+    and x` is x.  Returns the node itself when nothing could be decided."""
+    def const_truth(n: ast.AST):
+        if isinstance(n, ast.Constant) and (n.value is None or isinstance(n.value, (bool, int, str, bytes))):
+            return bool(n.value)
+        return None
+    if isinstance(e, ast.Compare) and len(e.ops) == 1 and isinstance(e.left, ast.Constant) \
+            and isinstance(e.comparators[0], ast.Constant):
+        a, b = e.left.value, e.comparators[0].value
+        op = e.ops[0]
+        try:
+            if isinstance(op, ast.Eq):
+                return ast.copy_location(ast.Constant(value=a == b), e)
+            if isinstance(op, ast.NotEq):
+                return ast.copy_location(ast.Constant(value=a != b), e)
+            if isinstance(op, ast.Is) and (a is None or b is None):
+                return ast.copy_location(ast.Constant(value=a is b), e)
+            if isinstance(op, ast.IsNot) and (a is None or b is None):
+                return ast.copy_location(ast.Constant(value=a is not b), e)
+        except Exception:       # noqa: BLE001
+            return e
+        return e
+    if isinstance(e, ast.UnaryOp) and isinstance(e.op, ast.Not):
+        inner = _simplify_test(e.operand)
+        t = const_truth(inner)
+        if t is not None:
+            return ast.copy_location(ast.Constant(value=not t), e)
+        if inner is not e.operand:
+            return ast.copy_location(ast.UnaryOp(op=ast.Not(), operand=inner), e)
+        return e
+    if isinstance(e, ast.BoolOp):
+        vals = [_simplify_test(v) for v in e.values]
+        is_and = isinstance(e.op, ast.And)
+        kept = []
+        for v in vals:
+            t = const_truth(v)
+            if t is None:
+                kept.append(v)
+            elif t != is_and:
+                # False in an `and` / True in an `or` decides the test once everything before it is harmless
+                if not any(isinstance(x, (ast.Call, ast.Await, ast.NamedExpr)) for k in kept for x in ast.walk(k)):
+                    return ast.copy_location(ast.Constant(value=t), e)
+                kept.append(v)
+        if len(kept) == len(e.values) and all(a is b for a, b in zip(kept, e.values)):
+            return e
+        if not kept:
+            return ast.copy_location(ast.Constant(value=is_and), e)
+        if len(kept) == 1:
+            return kept[0]
+        return ast.copy_location(ast.BoolOp(op=e.op, values=kept), e)
+    return e
+
+
 class _Sub(ast.NodeTransformer):
     def __init__(self, mapping: dict[str, ast.AST], rename: dict[str, str]):
         self.mapping = mapping
@@ -327,6 +417,10 @@ class Normaliser:
                 return True
             if isinstance(n, ast.If) and isinstance(n.test, ast.Constant):
                 return True
+            if isinstance(n, ast.comprehension):
+                it = n.iter
+                if (isinstance(it, ast.Attribute) and it.attr.isupper()) or (isinstance(it, ast.Name) and it.id.isupper()):
+                    return True
             if isinstance(n, ast.Assign) and isinstance(n.targets[0], (ast.Tuple, ast.List)) \
                     and isinstance(n.value, (ast.Tuple, ast.List)):
                 return True
@@ -374,6 +468,7 @@ class Normaliser:
     # ---- transformations -----------------------------------------------------------------
     def _expand_fn(self, fn: ast.AST, rel, mod, cls, stack, depth) -> bool:
         changed = False
+        self._cur_fn = fn
         for _ in range(12):
             c1 = self._match_to_if(fn)
             c2 = self._ifexp_to_if(fn)
@@ -382,7 +477,9 @@ class Normaliser:
             c4 = self._namedtuple_unpack(fn, mod)
             c4 = self._scalar_replace_records(fn, mod) or c4
             c4 = self._join_of_generator(fn, rel, mod, cls) or c4
-            c5 = self._unroll_constant_tables(fn, mod, cls)
+            self._cur_fn = fn
+            c5 = self._fold_table_comprehensions(fn, mod, cls)
+            c5 = self._unroll_constant_tables(fn, mod, cls) or c5
             c5 = self._fold_constant_ifs(fn) or c5
             c5 = self._sink_table_loops(fn, mod, cls) or c5
             for _k in range(8):
@@ -422,6 +519,31 @@ class Normaliser:
                 return None
         elif isinstance(e, ast.Name):
             name = e.id
+            cur = getattr(self, '_cur_fn', None)
+            if cur is not None and not name.isupper():
+                # a local bound once to a literal table and never changed in place
+                stores = [n for n in ast.walk(cur) if isinstance(n, ast.Name) and n.id == name
+                          and isinstance(n.ctx, (ast.Store, ast.Del))]
+                defs_l = [n for n in ast.walk(cur) if isinstance(n, ast.Assign) and len(n.targets) == 1
+                          and isinstance(n.targets[0], ast.Name) and n.targets[0].id == name]
+                if len(stores) == 1 and len(defs_l) == 1 and isinstance(defs_l[0].value, (ast.Tuple, ast.List)) \
+                        and self._simple_elem(defs_l[0].value) and defs_l[0].value.elts \
+                        and not any(isinstance(x, ast.Starred) for x in ast.walk(defs_l[0].value)):
+                    touched = any(
+                        (isinstance(n, ast.Attribute) and isinstance(n.value, ast.Name) and n.value.id == name
+                         and n.attr in ('append', 'extend', 'insert', 'pop', 'remove', 'sort', 'reverse', 'clear'))
+                        or (isinstance(n, ast.Subscript) and isinstance(n.value, ast.Name) and n.value.id == name
+                            and isinstance(n.ctx, (ast.Store, ast.Del)))
+                        for n in ast.walk(cur))
+                    # the elements must not be rebound between the definition and the loop: only
+                    # attribute chains and constants are accepted for a local table
+                    plain = all(isinstance(x, (ast.Constant, ast.Attribute, ast.Tuple, ast.List, ast.Load, ast.Name))
+                                for x in ast.walk(defs_l[0].value)) and not any(
+                        isinstance(x, ast.Name) and x.id not in ('self', 'cls', 'clz') and not x.id[:1].isupper()
+                        for x in ast.walk(defs_l[0].value))
+                    if not touched and plain:
+                        return defs_l[0].value, None
+                return None
         else:
             return None
         body = owner.body if owner is not None else getattr(mod, 'body', [])
@@ -474,6 +596,9 @@ class Normaliser:
                     continue
                 targets = [x.id for x in ast.walk(st.target) if isinstance(x, ast.Name)]
                 bad = False
+                no_cont = _without_continue(st.body)
+                if no_cont is not None:
+                    st.body = no_cont
                 for n in ast.walk(ast.Module(body=st.body, type_ignores=[])):
                     if isinstance(n, (ast.Break, ast.Continue, ast.Return, ast.Yield, ast.YieldFrom)):
                         bad = True
@@ -872,6 +997,111 @@ class Normaliser:
                 cur = node
         return [ast.copy_location(head, m)] if head is not None else None
 
+    def _fold_table_comprehensions(self, fn: ast.AST, mod, cls) -> bool:
+        """`((flag, 'I', name) for flag, name, _ in TABLE)` over a constant table is the literal tuple of its
+        rows; `(*literal, x)` is the flat literal"""
+        changed = False
+        outer = self
+
+        class T(ast.NodeTransformer):
+            def fold(inner, node):
+                nonlocal changed
+                if len(node.generators) != 1:
+                    return None
+                g = node.generators[0]
+                if g.ifs or g.is_async:
+                    return None
+                tab = outer._const_table(g.iter, mod, cls)
+                if tab is None or isinstance(tab[0], ast.Dict):
+                    return None
+                lit, owner = tab
+                class_names = set()
+                if owner is not None:
+                    for x in owner.body:
+                        if isinstance(x, ast.Assign):
+                            class_names |= {t.id for t in x.targets if isinstance(t, ast.Name)}
+                        elif isinstance(x, ast.AnnAssign) and isinstance(x.target, ast.Name):
+                            class_names.add(x.target.id)
+                rows = []
+                for row in lit.elts:
+                    mapping: dict[str, ast.AST] = {}
+
+                    def bind(t, v) -> bool:
+                        if isinstance(t, ast.Name):
+                            mapping[t.id] = v
+                            return True
+                        if isinstance(t, (ast.Tuple, ast.List)) and isinstance(v, (ast.Tuple, ast.List)) \
+                                and len(t.elts) == len(v.elts):
+                            return all(bind(a, b) for a, b in zip(t.elts, v.elts))
+                        return False
+                    if not bind(g.target, row):
+                        return None
+                    if owner is not None:
+                        class Q(ast.NodeTransformer):
+                            def visit_Name(self, nd):
+                                if nd.id in class_names:
+                                    return ast.Attribute(value=ast.Name(id=owner.name, ctx=ast.Load()), attr=nd.id,
+                                                         ctx=ast.Load())
+                                return nd
+                        mapping = {k: Q().visit(clone(v)) for k, v in mapping.items()}
+                    holder = ast.Expr(value=clone(node.elt))
+                    _Sub(mapping, {}).visit(holder)
+                    if not outer._simple_elem(holder.value):
+                        return None
+                    rows.append(holder.value)
+                    if len(rows) > 64:
+                        return None
+                changed = True
+                return ast.copy_location(ast.Tuple(elts=rows, ctx=ast.Load()), node)
+
+            def visit_GeneratorExp(inner, node):
+                inner.generic_visit(node)
+                return inner.fold(node) or node
+
+            def visit_ListComp(inner, node):
+                inner.generic_visit(node)
+                got = inner.fold(node)
+                if got is None:
+                    return node
+                return ast.copy_location(ast.List(elts=got.elts, ctx=ast.Load()), node)
+
+            def visit_Call(inner, node):
+                inner.generic_visit(node)
+                if isinstance(node.func, ast.Name) and node.func.id in ('tuple', 'list') and len(node.args) == 1 \
+                        and not node.keywords and isinstance(node.args[0], (ast.Tuple, ast.List)) \
+                        and outer._simple_elem(node.args[0]):
+                    cls_ = ast.Tuple if node.func.id == 'tuple' else ast.List
+                    return ast.copy_location(cls_(elts=node.args[0].elts, ctx=ast.Load()), node)
+                return node
+
+            def splice(inner, node):
+                nonlocal changed
+                if any(isinstance(x, ast.Starred) and isinstance(x.value, (ast.Tuple, ast.List)) for x in node.elts):
+                    elts = []
+                    for x in node.elts:
+                        if isinstance(x, ast.Starred) and isinstance(x.value, (ast.Tuple, ast.List)):
+                            elts.extend(x.value.elts)
+                        else:
+                            elts.append(x)
+                    node.elts = elts
+                    changed = True
+                return node
+
+            def visit_Tuple(inner, node):
+                inner.generic_visit(node)
+                return inner.splice(node) if isinstance(node.ctx, ast.Load) else node
+
+            def visit_List(inner, node):
+                inner.generic_visit(node)
+                return inner.splice(node) if isinstance(node.ctx, ast.Load) else node
+        for blk in list(self._blocks(fn)):
+            for st in blk:
+                if isinstance(st, (ast.Assign, ast.AnnAssign, ast.Return, ast.Expr, ast.AugAssign)):
+                    T().visit(st)
+                elif isinstance(st, ast.For):
+                    st.iter = T().visit(st.iter)
+        return changed
+
     def _lookup_table(self, e: ast.AST, mod, cls):
         """a class / module level name spelt as a constant and bound once to a dict display whose keys are
         constants (or tuples of constants) and whose values are constants, names, attributes or tuples of
@@ -1182,6 +1412,11 @@ class Normaliser:
             i = 0
             while i < len(blk):
                 st = blk[i]
+                if isinstance(st, ast.If) and not isinstance(st.test, ast.Constant):
+                    simp = _simplify_test(st.test)
+                    if simp is not st.test:
+                        st.test = simp
+                        changed = True
                 if isinstance(st, ast.If) and isinstance(st.test, ast.Constant) \
                         and (st.test.value is None or isinstance(st.test.value, (bool, int, str))):
                     live = st.body if st.test.value else st.orelse
